@@ -514,6 +514,96 @@ def r09_8(ctx):
     ctx.ob("trials-examined", n == 4, "lib", f"{n} trial(s) examined", trivial=True)
 
 
+# arm-specific early "not this format" answers that are known to agree with what the other arm's parser does
+GIVE_UP_EQUIVALENT = {
+    ("json", "mem", "std::str::from_utf8", "Err"): "bytes that are not UTF-8 are not JSON; serde_json's reader front end rejects the same bytes as invalid UTF-8, so both arms answer 'no match'",
+}
+
+
+@rule("R09.9", 1, "no trial answers 'no match' early for in-memory input only or for reader input only (detection agrees between a slice and a reader of the same bytes)", ["C09", "C02", "C10"])
+def r09_9(ctx):
+    import vocab
+
+    lib = ctx.lib
+    rv = vocab.lib_vocab(ctx.facts)["ref"]
+    ref_adt = lib.adts[rv["path"]]
+    trials = common.trial_functions(ctx.facts)
+    n_sites = 0
+    for fmt, trial in sorted(trials.items()):
+        sup = Super(lib, trial, depth=3)
+        ps = PathSens(sup)
+        arms = {}
+        for sn in sorted(sup.nodes(), key=str):
+            sb = sup.body_of(sn)
+            t = sb.blocks[sn[1]]["term"]
+            if t["k"] != "switch":
+                continue
+            for s_ in sb.blocks[sn[1]]["stmts"]:
+                if s_["k"] == "assign" and s_["rv"]["k"] == "discr" and vocab.ty_is(s_["rv"]["p"]["ty"], rv):
+                    for role, idx in (("mem", rv["mem_idx"]), ("stream", rv["stream_idx"])):
+                        e = enum_edge(sb, sn[1], idx)
+                        if e:
+                            arms.setdefault(role, []).append((sn, e[1], (sn[0], e[2])))
+        if not arms:
+            ctx.ob(f"{fmt}:no-arm-switch", True, site(trial), "the trial does not distinguish in-memory from reader input itself", trivial=True)
+            continue
+        parser_nodes = {n for n, b, t in sup.calls() if (fn_of(t) or {}).get("crate") in PARSER_CRATES or common.is_chunker_next(ctx.facts, fn_of(t))}
+        # sites that build Ok(false) without having parsed anything
+        before_parse = sup.reachable_from([sup.entry], removed_nodes=parser_nodes)
+        for g in sorted(before_parse, key=str):
+            gb = sup.body_of(g)
+            hit = False
+            for s_ in gb.blocks[g[1]]["stmts"]:
+                if s_["k"] == "assign" and s_["rv"]["k"] == "aggregate" and s_["rv"].get("variant") == "Ok" and s_["rv"]["ops"] and s_["rv"]["ops"][0].get("k") == "const" and s_["rv"]["ops"][0].get("v") is False and "Result<bool" in s_["p"]["ty"]:
+                    hit = True
+            if not hit:
+                continue
+            only = [role for role, es in arms.items() if any(ps.edge_dominates(e[0], e[1], e[2], g) for e in es)]
+            if len(only) != 1:
+                continue
+            role = only[0]
+            n_sites += 1
+            # the closest test this answer depends on (other than the arm switch itself)
+            best = None
+            for sn in sorted(sup.nodes(), key=str):
+                sb = sup.body_of(sn)
+                t = sb.blocks[sn[1]]["term"]
+                if t["k"] != "switch" or any(sn == e[0] for es in arms.values() for e in es):
+                    continue
+                for lab, m in sup.edges(sn):
+                    if ps.edge_dominates(sn, lab, m, g):
+                        if best is None or sup.dominates(best[0], sn):
+                            best = (sn, lab, m, t)
+            desc = ("?", "?")
+            if best is not None:
+                sn, lab, m, t = best
+                sb = sup.body_of(sn)
+                tr = strace(sup, sn, t["discr"], extra=("std::result::Result::<T, E>::is_ok", "std::result::Result::<T, E>::is_err", "std::option::Option::<T>::is_some", "std::option::Option::<T>::is_none"))
+                via = [s_[1].rsplit("::", 1)[-1] for s_ in tr.steps if s_[0] == "call"]
+                if tr.origin and tr.origin[0] == "call":
+                    cdef = (fn_of(tr.origin[2]) or {}).get("def", "?")
+                    if tr.has("discr"):
+                        ty = sup.body_of(tr.origin_node).local_ty(tr.origin[2]["dest"]["l"])
+                        names = ("Ok", "Err") if ty.startswith("std::result::Result<") else (("None", "Some") if ty.startswith("std::option::Option<") else ("0", "1"))
+                        edge_name = names[lab] if isinstance(lab, int) and lab < 2 else ("other" if lab == "otherwise" else str(lab))
+                        if lab == "otherwise":
+                            listed = [v_ for v_, _ in t["targets"]]
+                            rest = [i_ for i_ in (0, 1) if i_ not in listed]
+                            edge_name = names[rest[0]] if len(rest) == 1 else "other"
+                        desc = (cdef, edge_name)
+                    else:
+                        desc = (cdef, ":".join(via + ["true" if lab == "otherwise" else "false"]))
+                elif tr.origin and tr.origin[0] == "rvalue" and tr.origin[1]["rv"]["k"] == "binop":
+                    desc = ("cmp", tr.origin[1]["rv"]["op"])
+            if desc[0] == "cmp":
+                ctx.ob(f"{fmt}:{role}:gives-up:size-test", True, sup.site(g), "size-dependent give-up: judged by R09.8", trivial=True)
+                continue
+            why = GIVE_UP_EQUIVALENT.get((fmt, role, desc[0], desc[1]))
+            ctx.ob(f"{fmt}:{role}:gives-up:{desc[0].rsplit('::', 1)[-1]}:{desc[1]}", why is not None, sup.site(g),
+                   f"reviewed equivalent: {why}" if why else f"the {fmt} trial answers 'no match' for {'in-memory' if role == 'mem' else 'reader'} input only, when `{desc[0]}` yields {desc[1]}: the same bytes are judged differently from a {'reader' if role == 'mem' else 'slice'}")
+    ctx.ob("arm-specific-give-ups", True, "lib", f"{n_sites} arm-specific early answer(s) classified", trivial=True)
+
+
 @rule("R09.7", 3, "every error leaving the YAML chunker's parser loop is wrapped as ErrorKind::InvalidData (the YAML trial skips exactly that kind): no raw propagation of the parser/encoder error", ["C09", "C12"])
 def r09_7(ctx):
     lib = ctx.lib
